@@ -46,6 +46,9 @@ pub struct Cfg {
     pub flock: bool,
     pub nkeys: u64,
     pub faults: FaultPlan,
+    /// fail the n-th thread spawn (0-based, counted from Index::create on)
+    #[serde(default)]
+    pub fail_spawn_at: Option<u64>,
     pub strategy: Strategy,
     pub sched_seed: u64,
     /// reader reload policy OnCommitWithDelay for harness readers
@@ -179,6 +182,7 @@ pub fn base_cfg(rng: &mut Rng, profile: Profile, thorough: bool) -> Cfg {
         flock: rng.chance(1, 2),
         nkeys: rng.range(2, 5),
         faults: FaultPlan::default(),
+        fail_spawn_at: None,
         strategy: Strategy::Random,
         sched_seed: rng.next_u64(),
         reader_on_commit: false,
